@@ -70,3 +70,27 @@ check("C12", "exploration",
       "Trusted: the MMU/mprotect and Go's SetPanicOnFault. Only executed paths are covered.",
       "runtime monitoring: mprotect-based write sanitizer (page-fault oracle) + canary diff over exhaustive-short and randomized inputs",
       "DESIGN.md section 4 / C12")
+check("C08", "exploration",
+      "Metamorphic monitoring: every TAB/CR-free non-blank document D is converted as is and with '> ' put before every line (n = 1..4 times) on the same instance; the prefixed output must equal n blockquote wrappers around D's output byte for byte; "
+      "for the TAB/CR-free spec examples the inner side is spec.json's HTML, not goldmark's. Exhaustive short strings, line/token soup, corpus mutants x {core, GFM} x {safe, unsafe, unsafe+XHTML}.",
+      "Trusted: the relation itself (CommonMark 5.1 basic case). Documents not generated are not covered; coverage floors require every block kind and all 7 HTML block types inside the quote.",
+      "runtime monitoring: metamorphic relation (block-quote prefix homomorphism) between executions of the real converter, plus spec.json as expected side",
+      "DESIGN.md section 4 / C08")
+check("C09", "exploration",
+      "Metamorphic monitoring of two relations: Convert(A + blank + ATX heading + blank + B) == Convert(A) + heading + Convert(B) for CR-free, '['-free A, B with A not ending in an open code/HTML block "
+      "(openness decided from the specification's end conditions on A's own tree, conservatively; skipped pairs are counted); and Convert(Defs + D) == Convert(D + Defs) for generated definition blocks with fresh labels referenced from D in case/whitespace variants.",
+      "Trusted: the side-condition classifier (conservative: when in doubt a pair is skipped) and the definition generator (valid definitions by construction). Pairs are sampled.",
+      "runtime monitoring: metamorphic relations (block independence, definition position independence) between executions of the real converter",
+      "DESIGN.md section 4 / C09")
+check("C10", "exploration",
+      "Metamorphic monitoring: each source is rendered under all 8 combinations of Unsafe/XHTML/HardWraps for one extension set (alignment pinned, East Asian line breaks off); the 12 single-flag pairs are compared by exact rewrite (safe XHTML) or lock-step walks that admit only the statement's differences; "
+      "HardWraps insertions are counted against the soft breaks of the parsed tree, Unsafe differences are guided by the tree's raw fragments (all must be consumed) and dangerous destinations.",
+      "Trusted: the lock-step walkers, the fragment/soft-break collector reading the tree through accessors, goldmark's exported IsDangerousURL plus the C04 normaliser for the 'classified dangerous' clause.",
+      "runtime monitoring: metamorphic relations between the 8 option combinations (exact void-tag rewrite, guided lock-step diff) over randomized and exhaustive-short inputs x 9 extension sets",
+      "DESIGN.md section 4 / C10")
+check("C11", "exploration",
+      "Metamorphic monitoring: documents are made free of an extension's trigger characters by substitution and converted with and without that extension (alone and inside random base sets, safe and unsafe); outputs must be identical. "
+      "extension.GFM is compared with its four members on arbitrary documents.",
+      "Trusted: the trigger sets copied from the statement. Documents and base sets are sampled; exhaustive for short strings with the empty base set.",
+      "runtime monitoring: metamorphic relation (with/without extension on trigger-free documents; GFM versus members) between executions of the real converter",
+      "DESIGN.md section 4 / C11")
